@@ -102,6 +102,10 @@ type Manager struct {
 	lastPollTime   time.Time
 	nextPollTime   time.Time
 	pollTimer      *time.Timer
+	// wakeGen counts completed wakes (guarded by stateMu). A poll remembers the
+	// value it started under and stands down if a wake completed meanwhile,
+	// even when the agent has gone back to sleep since.
+	wakeGen uint64
 
 	// Deterministic windows
 	localID    identity.AgentID
@@ -319,6 +323,7 @@ func (m *Manager) Wake() error {
 
 	// Update state
 	m.state.Store(StateAwake)
+	m.wakeGen++
 	sleepDuration := time.Since(m.sleepStartTime)
 	m.sleepStartTime = time.Time{}
 	m.nextPollTime = time.Time{}
@@ -356,6 +361,12 @@ func (m *Manager) Poll() error {
 	// Transition to polling
 	m.state.Store(StatePolling)
 	m.lastPollTime = time.Now()
+	startGen := m.wakeGen
+	if m.cfg.PersistState {
+		if err := m.persistState(); err != nil {
+			m.logger.Debug("failed to persist sleep state", logging.KeyError, err)
+		}
+	}
 	m.stateMu.Unlock()
 
 	m.logger.Debug("starting poll")
@@ -377,8 +388,9 @@ func (m *Manager) Poll() error {
 	m.stateMu.Lock()
 	defer m.stateMu.Unlock()
 
-	// Check if we were woken during poll
-	if m.state.Load().(State) == StateAwake {
+	// Check if we were woken during poll (possibly followed by a new sleep:
+	// that sleep has its own poll schedule, this poll is stale)
+	if m.state.Load().(State) == StateAwake || m.wakeGen != startGen {
 		return nil
 	}
 
